@@ -549,6 +549,10 @@ fn store_nvars(rng: &mut Rng, thorough: bool) -> usize {
 
 /// start store: fresh, or the diagram of a compiled ADF (native or through the bridge)
 fn start_store(rng: &mut Rng, nvars: usize, rep: &mut Report) -> Result<Store, String> {
+    #[cfg(feature = "frontend")]
+    if rng.chance(1, 6) {
+        return replica_store(rng, nvars, rep);
+    }
     match rng.below(4) {
         0 | 1 => {
             rep.count("stores_fresh", 1);
@@ -574,6 +578,52 @@ fn start_store(rng: &mut Rng, nvars: usize, rep: &mut Report) -> Result<Store, S
             Store::adopt(adf.bdd, nvars)
         }
     }
+}
+
+/// a store that was filled through a channel (targeted and draining polls), then repaired with the
+/// documented repair step and from then on used for building operations like any other store
+#[cfg(feature = "frontend")]
+fn replica_store(rng: &mut Rng, nvars: usize, rep: &mut Report) -> Result<Store, String> {
+    rep.count("stores_from_channel_replica", 1);
+    let (s, r) = crossbeam_channel::unbounded::<BddNode>();
+    let mut producer = Store::new(nvars);
+    producer.bdd = Bdd::with_sender(s);
+    let mut replica = Bdd::with_receiver(r);
+    let nops = rng.range(3, 30);
+    for _ in 0..nops {
+        let op = loop {
+            let op = producer.random_op(rng);
+            // export/import would lose the sender
+            if !matches!(op, Op::Reimport | Op::Rebuild) {
+                break op;
+            }
+        };
+        producer.apply(&op)?;
+        if rng.chance(1, 3) {
+            // a poll for a handle that may or may not have arrived yet
+            let len = replica.nodes.len();
+            let h = match rng.below(4) {
+                0 => len,
+                1 => len + rng.below(4),
+                2 => rng.below(len),
+                _ => usize::MAX,
+            };
+            replica.recv(Term(h));
+        }
+    }
+    // catch up: first a targeted poll for the very last handle, then a drain
+    let last = producer.bdd.nodes.len() - 1;
+    if rng.bool() {
+        replica.recv(Term(last));
+    }
+    replica.recv(Term(usize::MAX));
+    if replica.nodes != producer.bdd.nodes {
+        return Err(format!("replica holds {} entries, producer {}", replica.nodes.len(), producer.bdd.nodes.len()));
+    }
+    // no further recv from here on; repair the book-keeping and use the replica as an ordinary store
+    drop(producer);
+    replica.fix_import();
+    Store::adopt(replica, nvars)
 }
 
 pub struct StoreRun {
